@@ -145,9 +145,16 @@ WorldJson(w) ==
   [brokers |-> BrokerSeq(w), ctrl |-> w.ctrl,
    topics |-> [i \in 1..Len(TSeq) |-> <<TSeq[i], w.ts[TSeq[i]], TopicEntry(w, TSeq[i])[3]>>]]
 \* hist keeps the raw step <<mutation name, world, request, beh>>; JSON only when emitted
-StepRaw(m, w, rq, d) == <<m, w, rq, d>>
+StepRaw(m, w, rq, d, hw) == <<m, w, rq, d, hw>>
+(* How the application asks for a FULL refresh: RefreshMetadata() / RefreshMetadata(nilSlice...) /
+   RefreshMetadata([]string{}...). client.go treats all three alike (len(topics) = 0: full refresh, caches
+   reset) and MetadataRequest.encode AS IT IS sends all three as "every topic" (a null array from v1 on,
+   an empty array in v0), so the way of asking does not change the transitions; it is part of the
+   behaviour handed to the harness, whose responder answers the raw request bytes the way Kafka does
+   (v1+: null = all topics, empty array = no topic; v0: empty array = all topics).                  *)
+Hows(rq) == IF rq = <<>> THEN {"noargs", "nil", "empty"} ELSE {"list"}
 StepJson(h) ==
-  [mut |-> h[1], world |-> WorldJson(h[2]), req |-> h[3], down |-> SelectSeq(EPSeq, LAMBDA e : e \in DOMAIN h[4]),
+  [mut |-> h[1], world |-> WorldJson(h[2]), req |-> h[3], how |-> h[5], down |-> SelectSeq(EPSeq, LAMBDA e : e \in DOMAIN h[4]),
    modes |-> LET ds == SelectSeq(EPSeq, LAMBDA e : e \in DOMAIN h[4]) IN [i \in 1..Len(ds) |-> h[4][ds[i]]]]
 
 -----------------------------------------------------------------------------
@@ -163,16 +170,16 @@ Init ==
   \* client creation (NewClient: full refresh) with a subset of the seeds unreachable
   /\ beh \in Behs(Seeds)
   /\ anyUp = (Seeds \ DOMAIN beh # {})
-  /\ hist = <<StepRaw("create", InitWorld, <<>>, beh)>>
+  /\ hist = <<StepRaw("create", InitWorld, <<>>, beh, "noargs")>>
 
 \* the environment changes the cluster, then somebody calls RefreshMetadata(req...)
 Begin ==
   /\ pc = "idle" /\ created /\ Len(hist) < MaxSteps + 1
-  /\ \E mu \in Muts(world), rq \in Reqs, b \in Behs(Candidates) :
+  /\ \E mu \in Muts(world), rq \in Reqs, b \in Behs(Candidates) : \E hw \in Hows(rq) :
        /\ world' = mu.w
        /\ req' = rq /\ beh' = b
        /\ anyUp' = (Candidates \ DOMAIN b # {})
-       /\ hist' = Append(hist, StepRaw(mu.m, mu.w, rq, b))
+       /\ hist' = Append(hist, StepRaw(mu.m, mu.w, rq, b, hw))
   /\ pc' = "try" /\ attempts' = RetryMax /\ result' = "none"
   /\ UNCHANGED <<cvars, ref, created>>
 
